@@ -4,9 +4,9 @@ CONSTANTS
   NodesOf <- MC_NodesOf
   RootOf <- MC_RootOf
   Langs = {"en", "fi"}
-  Codes = {"Nemeth", "UEB"}
-  MaxStack = 2
-  MaxVer = 3
+  Codes = {"Nemeth"}
+  MaxStack = 1
+  MaxVer = 2
   NewExprKeepsMarkers = TRUE
   RouteLeaksOverrideOnErr = FALSE
   SameDirKeepsTables = FALSE
